@@ -75,9 +75,17 @@ class ShapeSpec:
         """shape-specific proof steps (each is its own obligation) inserted before the extremality obligation"""
         return None
 
+    def member_of_witness(self, cx, P, p):
+        """membership of a witness given in the local frame (pose shapes) or in the world (sphere)"""
+        return self.member_local(cx, P, p)
+
+    def witness_world(self, cx, P, p):
+        return spec.to_world_point(cx, P["T"], p)
+
     def aabb_hints(self, cx, P, k, x, bb):
         """proof steps for the per-axis enclosure obligation; returns the list of fact-name prefixes to use"""
-        return ["orth:T:row%d%d" % (k, k), "def:", "skolem", "dom", "branch", "lemma", "proved"]
+        return ["orth:T:row%d%d" % (k, k), "def:", "skolem", "dom", "branch", "lemma", "proved:pose_entry_le_1:T[%d" % k, "proved:csb",
+                "proved:w"]
 
     def build(self, cx, P):
         K = cx.target(self.cls)
@@ -116,6 +124,7 @@ class CylinderSpec(ShapeSpec):
 
     def any_point(self, cx, P, name):
         y = self.any_local(cx, P, name)
+        cx.scratch["ylocal"] = y
         return spec.to_world_point(cx, P["T"], y)
 
 
@@ -310,6 +319,7 @@ class DiskSpec(ShapeSpec):
         else:
             a, b = cx.real(name + "_0", lo=-r * 0.7, hi=r * 0.7), cx.real(name + "_1", lo=-r * 0.7, hi=r * 0.7)
         cx.assume(spec._len_slack(cx, a * a + b * b, r * r), "skolem:%s in shape" % name)
+        cx.scratch["ab"] = (a, b)
         return spec.to_world_point(cx, P["T"], [a, b, 0.0])
 
 
@@ -342,6 +352,7 @@ class EllipseSpec(ShapeSpec):
         else:
             a, b = cx.real(name + "_0", lo=-radii[0] * 0.7, hi=radii[0] * 0.7), cx.real(name + "_1", lo=-radii[1] * 0.7, hi=radii[1] * 0.7)
         cx.assume(self._in2(cx, a, b, radii), "skolem:%s in shape" % name)
+        cx.scratch["ab"] = (a, b)
         return spec.to_world_point(cx, P["T"], [a, b, 0.0])
 
 
